@@ -1593,8 +1593,11 @@ const BIG: [usize; 21] = [
 
 pub(crate) fn gen_len(s: &mut Src) -> usize {
     if s.chance(5) {
-        // a size class / page boundary, up to 20 bytes below .. 19 above
-        return (*s.pick(&BIG) + 19).saturating_sub(s.below(40));
+        // a size class / page boundary, up to 20 bytes below .. 19 above (under the sanitizer
+        // build of the fuzz target, where every byte costs more, up to 16 KiB)
+        let big = *s.pick(&BIG);
+        let big = if crate::props::FUZZING.load(std::sync::atomic::Ordering::Relaxed) { big.min(16384) } else { big };
+        return (big + 19).saturating_sub(s.below(40));
     }
     if s.chance(150) {
         *s.pick(&SPECIAL)
